@@ -2645,7 +2645,7 @@ Lemma m_opassign_ok p f : noslice p = true -> bfrag f = true ->
              Step h (handles cur ++ handles old ++ handles w) G h' (handles cur').
 Proof.
   intros NS BF h cur t old told w tw G h' cur' ok I Hc Ho Hw Hg E.
-  unfold m_opassign in E. unfold v_opassign. rewrite Hg.
+  unfold m_opassign in E. unfold v_opassign, v_opassign_old. rewrite Hg.
   destruct (m_set true p None h cur) as [[h1 cur1] ok1] eqn:E1.
   assert (I0 : Inv h ((handles cur ++ handles_opt None) ++ (handles old ++ handles w) ++ G)).
   { simpl. eapply Inv_equiv; [|exact I]. occ_tac. }
@@ -2744,7 +2744,7 @@ Proof.
     + exact S12.
   - (* a[p] f= w *)
     apply andb_prop in FR. destruct FR as [NS BF].
-    intros h cur t G h' cur' r I Hr E. simpl in E. simpl. unfold v_opassign.
+    intros h cur t G h' cur' r I Hr E. simpl in E. simpl. unfold v_opassign, v_opassign_old.
     destruct (m_read h cur p) as [h1 [old|]] eqn:ER.
     2: { destruct (m_read_ok h cur t p (handles cur) G h1 None I) as [[Hg S1] K1]; auto.
          { apply incl_appl, incl_refl. }
@@ -2761,7 +2761,7 @@ Proof.
     assert (Hr2 : repr h2 cur t) by (eapply repr_ext; eauto).
     assert (Hold2 : repr h2 old told) by (eapply repr_ext; eauto).
     destruct (m_opassign_ok p f NS BF h2 cur t old told wv w G h' cur' ok I2 Hr2 Hold2 Hw Hg EO) as [t' [Ev [Hr' S3]]].
-    unfold v_opassign in Ev. rewrite Hg in Ev. rewrite Hg.
+    unfold v_opassign, v_opassign_old in Ev. rewrite Hg in Ev. rewrite Hg.
     assert (S123 : Step h (handles cur) G h' (handles cur')).
     { eapply Step_trans; [exact S1|]. eapply Step_trans; [exact S2|].
       eapply Step_equiv; [| |exact S3]. apply in_occ_equiv; occ_tac. intro; reflexivity. }
@@ -3328,6 +3328,7 @@ Definition sfrag (s : sstmt) : bool :=
   | SMod dst x m => is_modlop m && match dst with Some (_, q) => noslice q | None => true end
   | SSwap x p y q => noslice p && noslice q
   | SEvery x p e => efrag e
+  | SOpMod _ _ _ _ _ _ => false
   end.
 
 Lemma m_exec_s_ok s : sfrag s = true -> forall st sg st' ok,
